@@ -84,6 +84,11 @@ static void run() {
   while (pos < toks.size()) {
     std::string c = next();
     if (c == "i64") { int64_t n = nint(); stack.push_back(leaf<int64_t>(n, "l", util::dtype::int64, false)); }
+    else if (c == "i8") { int64_t n = nint(); stack.push_back(leaf<int8_t>(n, "b", util::dtype::int8, false)); }
+    else if (c == "i16") { int64_t n = nint(); stack.push_back(leaf<int16_t>(n, "h", util::dtype::int16, false)); }
+    else if (c == "u16") { int64_t n = nint(); stack.push_back(leaf<uint16_t>(n, "H", util::dtype::uint16, false)); }
+    else if (c == "u32") { int64_t n = nint(); stack.push_back(leaf<uint32_t>(n, "I", util::dtype::uint32, false)); }
+    else if (c == "u64") { int64_t n = nint(); stack.push_back(leaf<uint64_t>(n, "L", util::dtype::uint64, false)); }
     else if (c == "i32") { int64_t n = nint(); stack.push_back(leaf<int32_t>(n, "i", util::dtype::int32, false)); }
     else if (c == "u8") { int64_t n = nint(); stack.push_back(leaf<uint8_t>(n, "B", util::dtype::uint8, false)); }
     else if (c == "f64") { int64_t n = nint(); stack.push_back(leaf<double>(n, "d", util::dtype::float64, true)); }
